@@ -21,6 +21,8 @@ CHECKS = {
          "Lean 4 proof (verified save/restore analyser + history induction) + translator (Effects skeletons) + differential fingerprints", "5/C05"),
  "C06": ("Lean theorems: a raising check function (element-wise or vectorised, any options) is reported as a check error, never an escaping exception; the parse/validate model has no internal failure mode (validate_channel: returns or raises the collected errors); every exceptional execution of the mutate-then-revert skeletons regenerated from the source restores the tracked state (restores_sound). Differential: exhaustive fault injection at every invocation of every user callback (checks, parsers) with outcome class, schema fingerprint, config context and input snapshot; fault-free scans of pandas and polars for leaked exception classes",
          "Lean 4 proof (verified analyser over regenerated skeletons, fault-to-failure theorems) + exhaustive fault-position enumeration against the implementation", "5/C06"),
+ "C04": ("Lean: ownership/aliasing model with a verified analysis (safe_sound: an accepted program never changes an object that existed on entry, on any path through branches, loops and handlers); per-run obligations isSafe(program)=true for the inplace=False programs of the six pandas validate entry points translated from the source with callee summaries; container-kind table. Differential: representation-level snapshots of the argument before/after every entry point x parsing option x eager/lazy, result kind, pandas and polars",
+         "Lean 4 proof (verified ownership analysis) + translator (alias programs with callee summaries) + differential snapshots", "5/C04"),
 }
 NA = {}
 for i in range(1, 21):
